@@ -449,6 +449,36 @@ func checkC06(c *Ctx) {
 		}
 		c.Check(ok, "C06.6", "handler for "+w.ev, p.FuncPos(w.want), "a registered "+w.ev+" handler passes event.Batch to ClientIO."+w.want.Name(), "no such handler registered")
 	}
+	// a command received from a client is handed to the command cache (from where proposals take their batches) once its
+	// waiter is registered: otherwise the client waits for an outcome of a command that no replica will ever propose
+	if ec := p.Method("server", "ClientIO", "ExecCommand"); ec != nil {
+		fe := NewFlow(p, ec)
+		addFn := p.Method("internal/proto/clientpb", "CommandCache", "Add")
+		n, bad := 0, ""
+		for _, d := range deepInstrs(fe, func(in ssa.Instruction) bool {
+			_, ok := in.(*ssa.MapUpdate)
+			return ok
+		}, 0) {
+			if !strings.HasSuffix(d.Key(d.Instr.(*ssa.MapUpdate).Map), kCIO+"awaitingCmds") {
+				continue
+			}
+			n++
+			pos := d.Instr
+			if len(d.Path) > 0 {
+				pos = d.Path[0]
+			}
+			isAdd := func(in ssa.Instruction) bool {
+				ci, ok := in.(ssa.CallInstruction)
+				return ok && addFn != nil && calleeIs(ci.Common(), addFn) && fe.K.Key(ci.Common().Args[1]) == "p2"
+			}
+			// (leaving through a receive on the waiter's channel is the normal way out and comes after the hand-over)
+			if w := reachAvoid(pos, isReturn, isAdd); w != nil {
+				bad = p.InstrPos(w)
+			}
+		}
+		c.Check(n > 0 && bad == "", "C06.6", "ExecCommand: a registered command is handed to the command cache", p.FuncPos(ec),
+			"every path from the registration of the waiter to a return passes cmdCache.Add(cmd)", "a return at "+bad+" is reachable after registering the waiter without cmdCache.Add(cmd): the command is never proposed")
+	}
 	// C06.7 mark proposed before taking a batch
 	cp := p.Method("protocol/consensus", "Proposer", "CreateProposal")
 	if cp != nil {
